@@ -95,7 +95,10 @@ def parseOpts (f : List String) : Opts :=
   | i :: t :: u :: mx :: tr :: up :: e3 :: ini :: ck :: thr :: rest =>
     { I := i.toNat!, T := t.toNat!, U := u.toNat!, maxPayload := mx.toNat!,
       transports := if tr = "default" then ["polling", "websocket"] else tr.splitOn ",",
-      upgrades := up = "1", eio3 := e3 = "1", initial := if ini = "-" then none else some (unhex ini),
+      upgrades := up = "1", eio3 := e3 = "1",
+      -- (r… / R…: the same bytes configured as a plain reader instead of a buffer)
+      initial := if ini = "-" then none else
+        some (unhex (if ini.startsWith "r" ∨ ini.startsWith "R" then (ini.drop 1).toString else ini)),
       cookie := ck = "1", thr := if thr = "-" then 1024 else thr.toNat!, hdr := rest.head? = some "hdr" }
   | _ => {}
 
